@@ -1419,7 +1419,9 @@ Section RollbackCong.
   Proof.
     unfold b_force_backup.
     apply bind_ext; [apply real_path_ext; apply agree_ops_read; exact Hops|]. intro rn.
+    apply bind_ext; [apply meq_refl|]. intro prev.
     apply bind_ext; [apply meq_refl|]. intros _.
+    apply bind_ext; [|intro; apply meq_refl]. apply try_ext.
     apply (try_backup_ext base1 base2 backup backup (agree_ops_read _ _ Hops) (fun _ => True)).
     - intros x _. apply agree_at_refl.
     - intros; exact I.
